@@ -617,6 +617,8 @@ func VerifHarness_RelTables() {
 			if b >= int(RSVJNAL) && b <= int(VRJNAL) {
 				verifAssert(verifFuncName(ex) == "opUndefined", "C01: 0xe0-0xe7 are undefined upstream")
 				verifAssert(o.constantGas == 0 && o.dynamicGas != nil && o.memorySize == nil, "C12: journal instructions are present on every fork with a dynamic flat fee")
+				pops := verifJournalPops(OpCode(b))
+				verifAssert(o.minStack == pops && o.maxStack == int(params.StackLimit)+pops, "C12: a journal instruction's declared stack effect is exactly its operand pops")
 				continue
 			}
 			verifAssert(verifFuncName(o.execute) == verifFuncName(ex), "C01: same handler for every opcode byte on every fork")
@@ -627,4 +629,23 @@ func VerifHarness_RelTables() {
 		}
 	}
 	verifReach("tables-compared")
+}
+
+// verifJournalPops: the number of operands each journal instruction consumes (it pushes nothing).
+func verifJournalPops(op OpCode) int {
+	switch op {
+	case RSVJNAL:
+		return 3
+	case VSVJNAL:
+		return 4
+	case IRVVJNAL, IVVVJNAL:
+		return 6
+	case IRVRJNAL, IVVRJNAL:
+		return 5
+	case VVJNAL:
+		return 4
+	case VRJNAL:
+		return 2
+	}
+	return 0
 }
